@@ -46,6 +46,12 @@ def gen(t):
     a = add('V3_from_V4', 'Vec3<%s>& o, const Vec4<%s>& v' % (E, E), 'o = Vec3<%s>(v);' % E)
     b = add('V3_from_V4_exc', 'Vec3<%s>& o, const Vec4<%s>& v' % (E, E), 'o = Vec3<%s>(v, INF_EXCEPTION);' % E)
     pairs.append(dict(id='Vec3<%s>(Vec4,InfException)/Vec3(Vec4)' % E, C=b, U=a, outs=slots('a0', 3, t), sentinel=None, exc=DOMAIN))
+    # converting forms (source element type differs from the destination's): still one checked / unchecked pair
+    E2 = {'float': 'double', 'double': 'float'}.get(E)
+    if E2:
+        a = add('V3_from_V4x', 'Vec3<%s>& o, const Vec4<%s>& v' % (E, E2), 'o = Vec3<%s>(v);' % E)
+        b = add('V3_from_V4x_exc', 'Vec3<%s>& o, const Vec4<%s>& v' % (E, E2), 'o = Vec3<%s>(v, INF_EXCEPTION);' % E)
+        pairs.append(dict(id='Vec3<%s>(Vec4<%s>,InfException)/Vec3(Vec4<%s>)' % (E, E2, E2), C=b, U=a, outs=slots('a0', 3, t), sentinel=None, exc=DOMAIN))
     for d in (2, 3, 4):
         M = 'Matrix%d%d<%s>' % (d, d, E)
         fns = ['inverse', 'invert'] + (['gjInverse', 'gjInvert'] if d > 2 else [])
